@@ -288,11 +288,17 @@ func (rule *RuleRunnerLabel) tryToGetLabelsInMatrix(label *String, m *Matrix) []
 }
 
 func (rule *RuleRunnerLabel) checkConflict(comp runnerOSCompat, label *String) bool {
+	// Several labels may conflict with the label. Choose the one at the smallest position to make
+	// the error message deterministic. (iteration order of map is random)
+	var found *String
 	for c, l := range rule.compats {
-		if c&comp == 0 {
-			rule.Errorf(label.Pos, "label %q conflicts with label %q defined at %s. note: to run your job on each workers, use matrix", label.Value, l.Value, l.Pos)
-			return false
+		if c&comp == 0 && (found == nil || l.Pos.IsBefore(found.Pos)) {
+			found = l
 		}
+	}
+	if found != nil {
+		rule.Errorf(label.Pos, "label %q conflicts with label %q defined at %s. note: to run your job on each workers, use matrix", label.Value, found.Value, found.Pos)
+		return false
 	}
 	return true
 }
